@@ -156,7 +156,7 @@ PLACEMENTS = [p for k in range(5) for p in partitions(k)]
 assert len(PLACEMENTS) == 23
 
 
-def service_case(ty, placement, declared, kinds, props, layout=0, how="ctor", exp=True, ov=None):
+def service_case(ty, placement, declared, kinds, props, layout=0, how="ctor", exp=True, ov=None, naming="plain"):
     """One free-standing service of type ty whose i-th interface has kind kinds[i] and sits in site placement[i]."""
     nodes, ifs = [], []
     by_site = {}
@@ -172,7 +172,7 @@ def service_case(ty, placement, declared, kinds, props, layout=0, how="ctor", ex
         g["kinds"].append(kind)
         ifs.append([ni, 0, len(g["kinds"]) - 1])
     site = None if declared == "none" else ((SITES[placement[0]] if placement else SITES[0]) if declared == "first" else "STAR")
-    return {"exp": exp, "ov": ov, "nodes": nodes, "svcs": [mksvc(ty, ifs, site=site, props=props, how=how)]}
+    return {"exp": exp, "ov": ov, "naming": naming, "nodes": nodes, "svcs": [mksvc(ty, ifs, site=site, props=props, how=how)]}
 
 
 def constrained_props(ty):
@@ -198,7 +198,8 @@ def grid_A():
             for declared in ("none", "first", "other"):
                 for kp in kind_patterns(len(pl)):
                     n += 1
-                    yield service_case(ty, pl, declared, kp, baseline_props(ty), layout=n % 2)
+                    h = (n * 2654435761) >> 7
+                    yield service_case(ty, pl, declared, kp, baseline_props(ty), layout=h & 1, naming=("plain", "collide")[(h >> 1) & 1])
 
 
 def grid_B():
@@ -211,8 +212,9 @@ def grid_B():
                     for r in range(len(cp) + 1):
                         for sub in itertools.combinations(cp, r):
                             n += 1
-                            yield service_case(ty, pl, declared, [K] * len(pl), sub, layout=n % 2,
-                                               how="connect" if n % 3 == 0 else "ctor")
+                            h = (n * 2654435761) >> 7
+                            yield service_case(ty, pl, declared, [K] * len(pl), sub, layout=h & 1,
+                                               how="connect" if n % 3 == 0 else "ctor", naming=("plain", "collide")[(h >> 1) & 1])
 
 
 def grid_C():
@@ -241,7 +243,24 @@ def grid_D():
                      mknode("Switch", "UKY", groups=[G("switch", "P4", ["DedicatedPort"] * 2)])]
             ifs = [[[0, 1, 0], [1, 0, 0]], [[0, 0, 0], [0, 1, 0]], [[0, 1, 0], [2, 0, 0]], [[1, 0, 1], [3, 0, 0]],
                    [[0, 1, 0]], [[0, 1, 0], [0, 1, 1], [1, 0, 0], [2, 0, 0]]][variant]
-            yield {"exp": True, "ov": None, "nodes": nodes, "svcs": [mksvc(ty, ifs, props=baseline_props(ty), how="connect" if variant == 1 else "ctor")]}
+            for naming in ("plain", "collide"):
+                yield {"exp": True, "ov": None, "naming": naming, "nodes": [dict(x, groups=[dict(g) for g in x["groups"]]) for x in nodes],
+                       "svcs": [mksvc(ty, ifs, props=baseline_props(ty), how="connect" if variant == 1 else "ctor")]}
+    # names that coincide after derivation: the service port of a connected interface is called '<node>-<interface>', the
+    # interface of a NIC '<component>-p<k>': n1 + nic-aa-p1 and n1-nic + aa-p1 both give n1-nic-aa-p1; nic1 / nic10, n1 / n1-nic
+    # are prefixes of one another. The verdict must count interfaces, not names.
+    def named(name, site, cname, kinds=("DedicatedPort", "DedicatedPort")):
+        n = mknode("VM", site, groups=[dict(G("nic_smart", "OVS", kinds), cname=cname)])
+        n["name"] = name
+        return n
+    for ty in SVC_TYPES:
+        for sites in (("RENC", "UKY", "UKY"), ("RENC", "RENC", "RENC"), ("RENC", "UKY", "LBNL")):
+            nodes = lambda: [named("n1", sites[0], "nic-aa"), named("n1-nic", sites[1], "aa"), named("n3", sites[2], "nic1"),
+                             named("n3-nic1", sites[0], "0"), named("n3-nic", sites[1], "10")]
+            for ifs in ([[0, 0, 0], [1, 0, 0]], [[0, 0, 0], [1, 0, 0], [2, 0, 0]], [[2, 0, 0], [1, 0, 0], [0, 0, 0]],
+                        [[0, 0, 0], [1, 0, 0], [0, 0, 1], [1, 0, 1]], [[0, 0, 0]], [[2, 0, 0], [3, 0, 0]]):
+                for how in ("ctor", "connect"):
+                    yield {"exp": True, "ov": None, "nodes": nodes(), "svcs": [mksvc(ty, ifs, props=baseline_props(ty), how=how)]}
     # port mirror through its own constructor
     for site in (None, "RENC", "UKY"):
         for kind in ("DedicatedPort", "SharedPort"):
@@ -357,7 +376,21 @@ def attach(F, t, svc, i):
     except F["TopologyException"]:
         owner = t.get_owner_node(i)
         sp = svc.add_interface(name="%s-%s" % (owner.name, i.name), itype=F["InterfaceType"].ServicePort)
-        t.add_link(name=sp.name + "-link", ltype=F["LinkType"].L2Path, interfaces=[i, sp])
+        t.add_link(name="%s-link-%d" % (sp.name, len(t.links)), ltype=F["LinkType"].L2Path, interfaces=[i, sp])
+
+
+def node_name(case, ni):
+    """plain: n0, n1, ..; collide: n1, n1-x, n1-x-x, .. (with iface_prefix every '<node>-<interface>' coincides)"""
+    n = case["nodes"][ni]
+    if n.get("name"):
+        return n["name"]
+    return "n%d" % ni if case.get("naming", "plain") == "plain" else "n1" + "-x" * ni
+
+
+def iface_prefix(case, ni):
+    if case.get("naming", "plain") == "plain" or case["nodes"][ni].get("name"):
+        return ""
+    return "x-" * (len(case["nodes"]) - 1 - ni)
 
 
 def build(case, F):
@@ -371,11 +404,12 @@ def build(case, F):
     ids = itertools.count()
     nid = lambda: None if exp else "id%d" % next(ids)
     for ni, n in enumerate(case["nodes"]):
-        name = "n%d" % ni
+        name = node_name(case, ni)
+        pre = iface_prefix(case, ni)
         groups = n["groups"]
         if groups and groups[0]["via"] == "facility":
             node = t.add_facility(name=name, site=n["site"], node_id=nid(), nstype=ST[groups[0]["sty"]],
-                                  interfaces=[("p%d" % i, None, None) for i in range(len(groups[0]["kinds"]))])
+                                  interfaces=[(pre + "p%d" % i, None, None) for i in range(len(groups[0]["kinds"]))])
             node = t.facilities[name]
         elif groups and groups[0]["via"] == "switch":
             node = t.add_switch(name=name, site=n["site"], node_id=nid(), nstype=ST[groups[0]["sty"]], nports=len(groups[0]["kinds"]))
@@ -388,14 +422,14 @@ def build(case, F):
             via = g["via"]
             if via == "facility":
                 sname = name + "-ns"
-                ifs = [node.interfaces["p%d" % i] for i in range(len(g["kinds"]))]
+                ifs = [node.interfaces[pre + "p%d" % i] for i in range(len(g["kinds"]))]
                 direct = ["FacilityPort"] * len(ifs)
             elif via == "switch":
                 sname = name + "-ns"
                 ifs = [node.interfaces["p%d" % (i + 1)] for i in range(len(g["kinds"]))]
                 direct = ["DedicatedPort"] * len(ifs)
             elif via in ("nic_shared", "nic_smart"):
-                cname = "nic%d" % gi
+                cname = g.get("cname") or (pre + "nic%d" % gi)
                 model = F["ComponentModelType"].SharedNIC_ConnectX_6 if via == "nic_shared" else F["ComponentModelType"].SmartNIC_ConnectX_6
                 comp = node.add_component(name=cname, model_type=model)
                 has_comp = True
@@ -407,18 +441,22 @@ def build(case, F):
             else:
                 sname = "%s-g%d" % (name, gi)
                 hs = node.add_network_service(name=sname, nstype=ST[g["sty"]], node_id=nid())
-                ifs, direct = [], []
+                ifs, direct, dnames = [], [], []
                 for ii, kind in enumerate(g["kinds"]):
                     if kind == "SubInterface":
-                        par = hs.add_interface(name="p%d" % ii, itype=IT.DedicatedPort, labels=F["Labels"](local_name="p%d" % ii), node_id=nid())
-                        ifs.append(par.add_child_interface(name="p%d.1" % ii, labels=F["Labels"](vlan=str(100 + ii)), node_id=nid()))
+                        par = hs.add_interface(name=pre + "p%d" % ii, itype=IT.DedicatedPort, labels=F["Labels"](local_name="p%d" % ii), node_id=nid())
+                        ifs.append(par.add_child_interface(name=pre + "p%d.1" % ii, labels=F["Labels"](vlan=str(100 + ii)), node_id=nid()))
                         direct.append("DedicatedPort")
+                        dnames.append(pre + "p%d" % ii)
                     else:
-                        ifs.append(hs.add_interface(name="p%d" % ii, itype=IT[kind], node_id=nid()))
+                        ifs.append(hs.add_interface(name=pre + "p%d" % ii, itype=IT[kind], node_id=nid()))
                         direct.append(kind)
+                        dnames.append(pre + "p%d" % ii)
+            if via != "generic":
+                dnames = [x.name for x in ifs]
             for ii, x in enumerate(ifs):
                 b.iface[(ni, gi, ii)] = x
-            b.abstract[sname] = [g["sty"], None, [], n["site"], [["d", k] for k in direct]]
+            b.abstract[sname] = [g["sty"], None, [], n["site"], [["d", nm, k] for nm, k in zip(dnames, direct)]]
         if n["gpu"]:
             node.add_component(name="gpu1", model_type=F["ComponentModelType"].GPU_RTX6000)
             has_comp = True
@@ -456,26 +494,26 @@ def build(case, F):
         aifs = []
         for x in s["ifs"]:
             n = case["nodes"][x[0]]
-            aifs.append(["p", [[n["groups"][x[1]]["kinds"][x[2]], n["site"]]]])
+            aifs.append(["p", "%s-%s" % (node_name(case, x[0]), b.iface[tuple(x)].name), [[n["groups"][x[1]]["kinds"][x[2]], n["site"]]]])
         b.abstract[name] = [s["ty"], s["site"], list(s["props"]), None, aifs]
     for si, s in enumerate(case["svcs"]):
         svc, name = svcs[si], "svc%d" % si
         for xi, x in enumerate(s["extra"]):
             if x[0] == "direct":
                 svc.add_interface(name="x%d" % xi, itype=IT[x[1]])
-                b.abstract[name][4].append(["d", x[1]])
+                b.abstract[name][4].append(["d", "x%d" % xi, x[1]])
             elif x[0] == "dangling":
                 svc.add_interface(name="x%d" % xi, itype=IT.ServicePort)
-                b.abstract[name][4].append(["p", None])
+                b.abstract[name][4].append(["p", "x%d" % xi, None])
             elif x[0] == "peer":
                 svc.peer(svcs[x[1]])
-                b.abstract[name][4].append(["p", [["ServicePort", None]]])
-                b.abstract["svc%d" % x[1]][4].append(["p", [["ServicePort", None]]])
+                b.abstract[name][4].append(["p", "%s-svc%d" % (name, x[1]), [["ServicePort", None]]])
+                b.abstract["svc%d" % x[1]][4].append(["p", "svc%d-%s" % (x[1], name), [["ServicePort", None]]])
             elif x[0] == "two":
                 sp = svc.add_interface(name="x%d" % xi, itype=IT.ServicePort)
                 t.add_link(name="l%d-%d" % (si, xi), ltype=F["LinkType"].L2Path,
                            interfaces=[sp, b.iface[(0, 0, 1)], b.iface[(0, 0, 2)]])
-                b.abstract[name][4].append(["p", [["TrunkPort", case["nodes"][0]["site"]], ["TrunkPort", case["nodes"][0]["site"]]]])
+                b.abstract[name][4].append(["p", "x%d" % xi, [["TrunkPort", case["nodes"][0]["site"]], ["TrunkPort", case["nodes"][0]["site"]]]])
     return b
 
 
@@ -528,7 +566,7 @@ def run_case(case):
             # sanity of the builder itself: the kinds the API lists for each service are the ones described
             for name in order:
                 api = [str(i.type) for i in t.network_services[name].interface_list]
-                mine = [x[1] if x[0] == "d" else "ServicePort" for x in b.abstract[name][4]]
+                mine = [x[2] if x[0] == "d" else "ServicePort" for x in b.abstract[name][4]]
                 if sorted(api) != sorted(mine):
                     return {"build_err": "interfaces of %s: api %s harness %s" % (name, api, mine)}
             if case.get("xcheck"):
@@ -573,11 +611,11 @@ def extract(t, order, F):
         ifs = []
         for si in s.interface_list:
             if str(si.type) != "ServicePort":
-                ifs.append(["d", str(si.type)])
+                ifs.append(["d", si.name, str(si.type)])
                 continue
             peers = si.get_peers()
             if peers is None:
-                ifs.append(["p", None])
+                ifs.append(["p", si.name, None])
             else:
                 ps = []
                 for p in peers:
@@ -586,7 +624,7 @@ def extract(t, order, F):
                     except Exception:
                         o = None
                     ps.append([str(p.type), o.site if o is not None else None])
-                ifs.append(["p", ps])
+                ifs.append(["p", si.name, ps])
         props = sorted(p for p in SVC_PROPS if s.get_property(p))
         out.append([str(s.type), s.site, props, owner.site if owner is not None else None, ifs])
     return out
